@@ -1927,8 +1927,27 @@ EGLPNUM_TYPENAME_QSLIB_INTERFACE int EGLPNUM_TYPENAME_QSread_and_load_basis (
 	const char *filename)
 {
 	int rval = 0;
+	EGLPNUM_TYPENAME_ILLlp_basis B;
+
+	EGLPNUM_TYPENAME_ILLlp_basis_init (&B);
 
 	rval = check_qsdata_pointer (p);
+	CHECKRVALG (rval, CLEANUP);
+
+	/* the file is read into a record of its own and checked like the arrays of
+	 * QSload_basis_array: the basis the problem has is replaced only by a
+	 * complete, well-formed one */
+	rval = EGLPNUM_TYPENAME_ILLlib_readbasis (p->lp, &B, filename);
+	CHECKRVALG (rval, CLEANUP);
+
+	if (B.nstruct != p->qslp->nstruct || B.nrows != p->qslp->nrows ||
+			B.cstat == 0 || B.rstat == 0)
+	{
+		QSlog("basis read from %s does not match the problem", filename);
+		rval = 1;
+		goto CLEANUP;
+	}
+	rval = basis_arrays_check (B.nstruct, B.nrows, B.cstat, B.rstat);
 	CHECKRVALG (rval, CLEANUP);
 
 	if (p->basis == 0)
@@ -1940,22 +1959,14 @@ EGLPNUM_TYPENAME_QSLIB_INTERFACE int EGLPNUM_TYPENAME_QSread_and_load_basis (
 	{
 		EGLPNUM_TYPENAME_ILLlp_basis_free (p->basis);
 	}
-
-	rval = EGLPNUM_TYPENAME_ILLlib_readbasis (p->lp, p->basis, filename);
-	if (rval)
-	{
-		/* the record was emptied above and could not be refilled: drop it, an
-		 * empty record would be taken for a basis by QSwrite_basis/QSget_basis */
-		EGLPNUM_TYPENAME_ILLlp_basis_free (p->basis);
-		ILL_IFFREE(p->basis);
-		p->factorok = 0;
-	}
-	CHECKRVALG (rval, CLEANUP);
+	*p->basis = B;
+	EGLPNUM_TYPENAME_ILLlp_basis_init (&B);
 
 	p->factorok = 0;
 
 CLEANUP:
 
+	EGLPNUM_TYPENAME_ILLlp_basis_free (&B);
 	return rval;
 }
 
